@@ -277,6 +277,31 @@ func checkAssertions(w *World, r *Report, reach map[*ssa.Function]bool) {
 					st := deref(fa.X.Type()).Underlying().(*types.Struct)
 					p = poolByField[st.Field(fa.Field)]
 				}
+				if p == nil {
+					// a helper that is handed the pool (`pool *sync.Pool`): the pool of every call site
+					if pp, _, isP := paramOrigin(unspill(recv)); isP {
+						if cvs, ok := callerValues(pp, -1); ok && len(cvs) > 0 {
+							allOK, names := true, []string{}
+							for _, cv := range cvs {
+								g := globalOf(cv.val)
+								cp := poolByGlobal[g]
+								if g == nil || cp == nil {
+									allOK = false
+									break
+								}
+								if ok, _ := homogeneous(cp, ta.AssertedType); !ok {
+									allOK = false
+									break
+								}
+								names = append(names, cp.name)
+							}
+							if allOK {
+								r.ok("R05.4", ssaName(fn), construct, pos, "pool homogeneity at every call site: "+strings.Join(names, ", ")+" supply exactly this type", true)
+								return
+							}
+						}
+					}
+				}
 				if p != nil {
 					if ok, why := homogeneous(p, ta.AssertedType); ok {
 						r.ok("R05.4", ssaName(fn), construct, pos, "pool homogeneity: New and every Put of "+p.name+" supply exactly this type", true)
@@ -334,7 +359,7 @@ func sliceElemOf(v ssa.Value) (ssa.Value, bool) {
 // element passed a comma-ok assertion to the returned type: the assertion's failing edge leads
 // to `return false`, and `return true` lies behind the loop's exit edge only.
 func allElemsPredicate(g *ssa.Function) (types.Type, int, bool) {
-	if g == nil || g.Pkg == nil || g.Pkg.Pkg.Path() != twigPath || len(g.Blocks) == 0 {
+	if g == nil || !isTwigFn(g) || len(g.Blocks) == 0 {
 		return nil, 0, false
 	}
 	if g.Signature.Results().Len() != 1 || !types.Identical(g.Signature.Results().At(0).Type().Underlying(), types.Typ[types.Bool]) {
